@@ -15,10 +15,13 @@ BY_BYTES = {v: k for k, v in CONTENT.items()}
 CFG = {}
 
 
-def _init(copia, root):
+LINK = 6          # version id of "a symbolic link to CFG['link_target']" (bisync fingerprints the target string)
+
+
+def _init(copia, root, link_target=None):
     import multiprocessing
     ident = multiprocessing.current_process()._identity
-    CFG.update(copia=copia, dir=os.path.join(root, f"w{ident[0] if ident else 0}"))
+    CFG.update(copia=copia, dir=os.path.join(root, f"w{ident[0] if ident else 0}"), link_target=link_target)
 
 
 def _env(home):
@@ -32,6 +35,9 @@ def tree(root):
     for dp, dn, fn in os.walk(root):
         for f in fn:
             p = os.path.join(dp, f)
+            if os.path.islink(p):
+                out[os.path.relpath(p, root)] = LINK if os.readlink(p) == CFG.get("link_target") else -1
+                continue
             out[os.path.relpath(p, root)] = BY_BYTES.get(open(p, "rb").read(), -1)
     return out
 
@@ -57,6 +63,8 @@ def run_history(job):
         os.makedirs(x)
     bases = rng.sample(BASES, rng.randint(2, 5))
     cids = [1, 2, 3] + ([4] if rng.random() < 0.3 else []) + ([5] if rng.random() < 0.15 else [])
+    if CFG.get("link_target") and rng.random() < 0.35:
+        cids.append(LINK)
     last = {}
     pair = None
     recs = []
@@ -65,7 +73,15 @@ def run_history(job):
         p = os.path.join(side, name)
         try:
             os.makedirs(os.path.dirname(p), exist_ok=True)
-            if os.path.isdir(p):
+            if os.path.isdir(p) and not os.path.islink(p):
+                return
+            if os.path.islink(p) or c == LINK:
+                try:
+                    os.unlink(p)
+                except FileNotFoundError:
+                    pass
+            if c == LINK:
+                os.symlink(CFG["link_target"], p)
                 return
             with open(p, "wb") as f:
                 f.write(CONTENT[c])
@@ -205,8 +221,8 @@ def _tree_b(root):
     return out
 
 
-def run_all(copia, root, jobs, nproc=12, pairs=False):
-    with Pool(nproc, initializer=_init, initargs=(copia, root)) as pool:
+def run_all(copia, root, jobs, nproc=12, pairs=False, link_target=None):
+    with Pool(nproc, initializer=_init, initargs=(copia, root, link_target)) as pool:
         out = []
         for r in pool.imap_unordered(run_history, jobs):
             out.extend(r)
